@@ -46,6 +46,7 @@ type caseT struct {
 	Outcome      int  // subject handler: 0 success, 1 error, 2 panic
 	SlowLogUs    int  // the logger's Error() takes this long (loggers do I/O)
 	NegTimeout   bool // CloseTimeout is negative (a deadline that already passed)
+	ViaCtx       bool // the shutdown is started by cancelling the context given to Run (the Close callers follow)
 	SubEnds      bool // every subscription ends by itself (channel closed by the subscriber) while the subject invocation runs; the router then closes itself
 	Noise        []uint8
 }
@@ -113,6 +114,13 @@ func genCase(t *rapid.T) caseT {
 		c.SubEnds = true
 		c.HandlerDur = c.HandlerDur % 2
 		c.ReleaseDelay = c.ReleaseDelay % 2
+		c.CloseTimeout = 5 * time.Second
+	}
+	if !wantSubEnds && !c.NegTimeout && c.HandlerDur < 3 && rapid.IntRange(0, 3).Draw(t, "stoppedThroughRunContext") == 0 {
+		// the router's own Close call (started by the cancelled context) is not observable: nothing here may depend
+		// on who runs into the timeout, so short handlers and a generous timeout only
+		c.ViaCtx = true
+		c.HandlerDur = c.HandlerDur % 2
 		c.CloseTimeout = 5 * time.Second
 	}
 	c.Noise = rapid.SliceOfN(rapid.Uint8Range(0, 5), 0, 8).Draw(t, "noise")
@@ -219,6 +227,10 @@ func runCase(c caseT) (viol []string, held bool) {
 			return c.CloseTimeout / 2
 		case 3:
 			// far beyond the timeout: a Close caller that is scheduled late (loaded machine) must still time out first
+			if c.SlowDrain {
+				// and far enough for "returns an error instead of hanging" to be told from "returns when the handler is done"
+				return c.CloseTimeout + 6*time.Second
+			}
 			return 3 * c.CloseTimeout
 		}
 		return 0
@@ -301,8 +313,10 @@ func runCase(c caseT) (viol []string, held bool) {
 	runRet := make(chan struct{})
 	var runErr error
 	var runSnap map[string]sample
+	runCtx, cancelRun := context.WithCancel(context.Background())
+	defer cancelRun()
 	go func() {
-		runErr = router.Run(context.Background())
+		runErr = router.Run(runCtx)
 		runSnap = w.snapshot()
 		close(runRet)
 	}()
@@ -377,6 +391,10 @@ func runCase(c caseT) (viol []string, held bool) {
 		}
 		time.Sleep(time.Duration(c.ReleaseDelay) * time.Millisecond)
 	}
+	if c.ViaCtx {
+		cancelRun()
+		time.Sleep(time.Duration(c.ReleaseDelay) * 300 * time.Microsecond)
+	}
 	// concurrent Close callers
 	results := make([]*closeRes, c.Callers)
 	t0 := time.Now()
@@ -421,6 +439,10 @@ func runCase(c caseT) (viol []string, held bool) {
 		}
 	}
 	closeTook := time.Since(t0)
+	if c.Point == "in-handler" && c.HandlerDur == 3 && c.SlowDrain && held && closeTook > c.CloseTimeout+3*time.Second {
+		// the subscriber's own Close() waits for its in-flight message here; Router.Close must not wait for that beyond its timeout
+		bad("liveness: the handler outlives CloseTimeout (%v) by 6s and the Close callers returned only after %v: Close waited for more than its timeout", c.CloseTimeout, closeTook)
+	}
 	select {
 	case <-runRet:
 	case <-time.After(lib.Live):
@@ -468,7 +490,9 @@ func runCase(c caseT) (viol []string, held bool) {
 	}
 	// subscribers get closed (handlers whose subscription ended by itself are no longer handlers of the router when
 	// Close runs: nothing is demanded about their subscribers)
-	if c.SubEnds {
+	// (likewise handlers that were stopped through the Run context before Close ran: the router documents that it closes
+	// subscribers "just when the entire router is closed" by Close, a handler ended by its context keeps its subscriber open)
+	if c.SubEnds || c.ViaCtx {
 	} else if !c.GoChannel {
 		for i, s := range subs {
 			if !lib.WaitUntil(lib.Live, func() bool { return s.CloseCalls() >= 1 }) {
@@ -508,7 +532,7 @@ func TestGracefulClose(t *testing.T) {
 			path := lib.WriteReplay("TestGracefulClose", "C06", map[string]any{"property": "C06", "case": c, "violations": v})
 			t.Fatalf("violation of C06 (%d):\n  %s\ncase: %s\nreplay: %s", len(v), strings.Join(v, "\n  "), c, path)
 		}
-		lib.Case(c.String(), held, "point:"+c.Point, fmt.Sprintf("held=%v", held), fmt.Sprintf("gochannel=%v", c.GoChannel), fmt.Sprintf("subscriptions-end-by-themselves=%v", c.SubEnds))
+		lib.Case(c.String(), held, "point:"+c.Point, fmt.Sprintf("held=%v", held), fmt.Sprintf("gochannel=%v", c.GoChannel), fmt.Sprintf("subscriptions-end-by-themselves=%v", c.SubEnds), fmt.Sprintf("stopped-through-run-context=%v", c.ViaCtx))
 		if held {
 			lib.Sample(map[string]any{"test": "GracefulClose", "case": c.String()})
 		}
